@@ -4,38 +4,83 @@ Oracles: (1) the event log of a recording semantics object: no @name rule ever c
 value that is a declared keyword (upper-cased under ignorecase); (2) the metamorphic pair
 "grammar with vs without the @name decorators / @@keyword lines"; (3) REF with the keyword check as
 a failing predicate at the rule's exit; (4) model vs generated parser.  DESIGN.md section 3/C11.
+
+Two further dimensions (sixth round):
+
+* INPUT KIND.  `parse()` takes the text as a plain str or as a ready-made input object.  Every other text of a case is
+  parsed a second time with the text handed over as `TextLines(text)`, legacy `tatsu.buffering.Buffer(text)`, the same
+  two built with the parse-time settings, and every text class the GENERATED module itself defines (`TText`,
+  `TBuffer`, with and without the parse-time settings).  A ready-made object tokenizes by the configuration IT carries
+  (case of tokens, nameguard), which may differ from the parser's; the keyword comparison is the parser's business
+  and follows the parser's ignorecase (directive or parse-time setting) whatever object brings the text.  REF is run
+  with exactly that split (`ignorecase`/`nameguard` = what the object carries, `keyword_ignorecase` = the parser's),
+  the event log is read on the model AND on the generated parser, and model and generated parser are compared under
+  the same input kind.
+
+* KEYWORD SWEEP.  Grammars that declare 1..60 keywords (reserved-word lists of real languages, synthetic short and
+  long words, mixed case, non-ASCII, quoted non-identifier spellings), declared on ONE `@@keyword` line, on one line
+  each, in chunks (all three through the grammar-text route) or given to the model constructor (object route).
+  EVERY declared keyword is tried as a name (alone or after a plain identifier), together with a case variant, a
+  prefix and a suffix, each under one input kind in rotation, on the model and on the generated parser.
 """
 from __future__ import annotations
 
 import random
+import types
 
 from .. import gen as G
 from .. import lang as L
 from .. import refdiff as D
 from ..common import h64
-from ..ref import canon
+from ..ref import canon, ref_run
 from ..refdiff import step_budget
 from ..semprobe import Recorder
-from ..tsu import StepHeart, gen_parser
+from ..tsu import WRAP_START, StepHeart, wrapped
 
 ID = 'C11'
 LEVEL = 'exploration'
 RULE = ('cases = (grammar with 1-3 @@keyword declarations (words, quoted, mixed case, non-ASCII case pairs) and @name rules over identifier '
         'patterns used in choices, closures, lookaheads, with keyword-token alternatives AFTER the name alternative; input of words drawn from '
         'keywords, their prefixes/suffixes, case variants and plain identifiers; ignorecase off / directive / parse-time setting); '
-        'non-trivial = some @name rule matched text that IS a keyword (so the rejection decided something); distinct by (grammar text, settings, input)')
+        'non-trivial = some @name rule matched text that IS a keyword (so the rejection decided something); distinct by (grammar text, settings, input). '
+        'INPUT KINDS: every other text of a case is parsed again with the text handed over as a ready-made input object - TextLines(text), '
+        'tatsu.buffering.Buffer(text), both built with the parse-time settings, and every text class the generated module defines (with and '
+        'without the settings), kinds in rotation - on the wrapped model (REF with tokens matched as the object is configured, keywords compared '
+        'as the parser is configured), on the model and on the generated parser with the event log; distinct by (grammar text, settings, input, kind). '
+        'KEYWORD SWEEP: per shard 6 (quick) grammars with 1..60 declared keywords (reserved words of real languages as written/upper/capitalized, '
+        'synthetic 1-14 character mixed-case words, non-ASCII words, quoted non-identifier spellings) declared on one @@keyword line / one line '
+        'each / chunks (grammar-text route) or passed to the model constructor; EVERY declared keyword tried as a name input, plus case variants, '
+        'prefixes, suffixes, each under one input kind (str included) in rotation, on the model and on the generated parser')
 ASSUMPTIONS = [
     'REF: an @name rule whose value, as text (upper-cased under ignorecase), is a declared keyword fails like a syntax mismatch at rule exit',
     'the undecorated grammar is the reference for "accepted exactly as the undecorated rule would accept it" on inputs where no @name rule '
     'produced a keyword value in the undecorated run',
+    'a ready-made input object (TextLines, Buffer, a generated text class) matches tokens by the configuration IT was built with (ignorecase, '
+    'nameguard; the defaults when built from the text alone; the grammar directives for a generated text class); the keyword comparison of an '
+    '@name rule follows the PARSER configuration (directive or parse-time ignorecase) whatever object brings the text.  REF takes the two as '
+    'separate settings (ignorecase / keyword_ignorecase); with a plain str they are one setting',
+    'the text classes of a generated module are found by duck typing (classes defined by the module that have newcursor()); if a generated '
+    'module defines none, those kinds are noted as unobserved (no floor on them)',
 ]
 FLOORS = {
     'quick': {'keyword_rejections': 2000, 'alternative_after_rejection': 700, 'nonkeyword_same_as_undecorated': 4000,
               'ignorecase_directive': 1500, 'ignorecase_setting': 1500, 'gen_compared': 6000, 'name_events': 9000,
-              'case_variant_rejected': 800, 'in_lookahead': 250, 'in_closure': 1000, 'uppercase_name_rule': 1500, 'reused_after_flip': 6000, 'based_name_rule': 1200},
-    'thorough': {'keyword_rejections': 80000, 'nonkeyword_same_as_undecorated': 150000, 'gen_compared': 150000},
+              'case_variant_rejected': 800, 'in_lookahead': 250, 'in_closure': 1000, 'uppercase_name_rule': 1500, 'reused_after_flip': 6000, 'based_name_rule': 1200,
+              'gen_name_events': 9000,
+              # input kinds
+              'kind_probes': 6000, 'kind_gen_compared': 6000, 'kind_keyword_rejections': 2000, 'input_kind:textlines': 700, 'input_kind:buffer': 700,
+              'input_kind:textlines_set': 700, 'input_kind:buffer_set': 700, 'bare_input_under_ignorecase': 700,
+              'bare_input_case_insensitive_rejection': 300,
+              # keyword sweep
+              'sweep_cases': 80, 'sweep_cases_10_or_more_keywords': 35, 'sweep_words_of_long_lists': 1500, 'sweep_rejections': 1000,
+              'sweep_case_variant_rejected': 300, 'sweep_max_keywords': 40, 'sweep_cases_with_quoted_keyword': 30,
+              'sweep_decl:one': 8, 'sweep_decl:several': 8, 'sweep_decl:chunks': 8, 'sweep_decl:object': 8},
+    'thorough': {'keyword_rejections': 80000, 'nonkeyword_same_as_undecorated': 150000, 'gen_compared': 150000,
+                 'kind_probes': 150000, 'bare_input_case_insensitive_rejection': 8000, 'sweep_cases': 2400,
+                 'sweep_words_of_long_lists': 40000, 'sweep_rejections': 25000, 'sweep_max_keywords': 60},
 }
 N = {'quick': 1600, 'thorough': 40000}
+PEAK_COUNTERS = ('sweep_max_keywords',)
 
 KEYWORD_POOL = ['if', 'then', 'end', 'For', 'WHILE', 'in', 'straße', 'ınd', 'x1', 'no_t']
 OTHER_WORDS = ['a', 'iff', 'i', 'thenx', 'en', 'foo', 'IF', 'If', 'iF', 'END', 'for', 'FOR', 'while', 'STRASSE', 'Straße', 'IND',
@@ -45,12 +90,15 @@ IDENT_PATS = [r'[a-zA-Z_]\w*', r'\w+', r'[^\W\d]\w*', r'[a-zıßA-Z]+']
 
 def plan(tier, seed):
     k = 16 if tier == 'quick' else 64
-    return [{'seed': seed, 'shard': i, 'n': N[tier] // k, 'tier': tier} for i in range(k)]
+    return [{'seed': seed, 'shard': i, 'n': N[tier] // k, 'nsweep': N_SWEEP[tier] // k, 'tier': tier} for i in range(k)]
 
 
-def gen_case(rng):
-    kws = tuple(rng.sample(KEYWORD_POOL, rng.choice([1, 2, 3])))
-    idpat = rng.choice(IDENT_PATS)
+def gen_case(rng, kws=None, idpats=IDENT_PATS):
+    """kws=None: the generic family (1-3 keywords of KEYWORD_POOL); a keyword list: the sweep family"""
+    sweep = kws is not None
+    if not sweep:
+        kws = tuple(rng.sample(KEYWORD_POOL, rng.choice([1, 2, 3])))
+    idpat = rng.choice(idpats)
     T = L.Tok
     # a token-style (upper-case) @name rule does not skip whitespace at its entry: put a void before each reference
     upper = rng.random() < 0.35
@@ -60,7 +108,8 @@ def gen_case(rng):
         if upper:
             return L.Group(L.Seq((L.Void(), L.Call(names[name]))))
         return L.Call(names[name])
-    kwtok = [T(k) for k in kws]
+    # keyword-token alternatives: all keywords in the generic family, three of them in a sweep
+    kwtok = [T(k) for k in (rng.sample(kws, min(3, len(kws))) if sweep else kws)]
     shape = rng.choice(['stmt', 'closure', 'lookahead', 'choice_after', 'named', 'gather', 'two_names'])
     rules = []
     feats = {shape}
@@ -150,7 +199,153 @@ def plain(parse, g, text, settings, sem=None):
         return ('EXC', type(e).__name__, str(e)[:80])
 
 
-def check(acc, g, settings, mode, feats, texts, origin):
+# ---------------------------------------------------------------- input kinds
+# what the text of a parse is handed over as.  'str' is the plain string; the others are ready-made input objects.
+BASE_KINDS = ['textlines', 'buffer', 'textlines_set', 'buffer_set']
+
+
+def gen_module(model):
+    """model -> (ParserClass, {name: text class defined by the generated module}) through the real code generator"""
+    from tatsu.ngcodegen.ngparser_gen import pythongen
+    src = pythongen(model)
+    mod = types.ModuleType('vt_generated')
+    exec(compile(src, '<generated>', 'exec'), mod.__dict__)  # noqa: S102
+    cls = None
+    texts = {}
+    for k, v in mod.__dict__.items():
+        if not (isinstance(v, type) and v.__module__ == 'vt_generated'):
+            continue
+        if k.endswith('Parser'):
+            cls = v
+        elif callable(getattr(v, 'newcursor', None)) and k == v.__name__:   # an input class (tatsu.input.Text is a protocol);
+            # aliases (TTokenizer = TText) are the same class
+            texts[k] = v
+    return cls, texts
+
+
+def kinds_of(text_classes):
+    """all input kinds other than 'str' for a generated module exposing `text_classes`"""
+    names = sorted(text_classes)
+    return BASE_KINDS + ['gen:' + n for n in names] + ['gen_set:' + n for n in names]
+
+
+def make_input(kind, text, settings, text_classes):
+    """a FRESH input for one parse (a legacy Buffer has a position of its own)"""
+    if kind == 'str':
+        return text
+    if kind in ('textlines', 'textlines_set'):
+        from tatsu.input.textlines import TextLines
+        return TextLines(text) if kind == 'textlines' else TextLines(text, **settings)
+    if kind in ('buffer', 'buffer_set'):
+        from tatsu.buffering import Buffer
+        return Buffer(text) if kind == 'buffer' else Buffer(text, **settings)
+    how, _, name = kind.partition(':')
+    cls = text_classes[name]
+    return cls(text) if how == 'gen' else cls(text, **settings)
+
+
+def ref_settings(kind, g, settings, ignorecase):
+    """REF's settings for one parse: tokens are matched by what the INPUT carries, keywords are compared by the PARSER's
+    ignorecase.  str: directives + parse-time settings (TatSu builds the input from the parse configuration);
+    TextLines(text)/Buffer(text): nothing; ..._set: the parse-time settings; a generated text class: the directives
+    (baked into the class), plus the settings when they are passed to it."""
+    d = L.directive_values(g.directives)
+    if kind in ('textlines', 'buffer'):
+        carried = {}
+    elif kind in ('textlines_set', 'buffer_set'):
+        carried = dict(settings)
+    elif kind.startswith('gen:'):
+        carried = d
+    else:
+        carried = {**d, **settings}
+    return {'ignorecase': bool(carried.get('ignorecase')), 'nameguard': carried.get('nameguard'),
+            'keyword_ignorecase': ignorecase}
+
+
+def kind_class(kind):
+    return kind.split(':')[0]
+
+
+def outcome_of(fn):
+    from tatsu.exceptions import FailedParse
+    try:
+        return fn()
+    except FailedParse as e:
+        return ('fail', type(e).__name__)
+    except RecursionError:
+        return ('EXC', 'RecursionError')
+    except Exception as e:  # noqa: BLE001
+        if type(e).__name__ == 'HeartDied':
+            return ('EXC', 'StepBudget')
+        return ('EXC', type(e).__name__, str(e)[:80])
+
+
+def kind_probe(acc, g, wmodel, pmodel, gen, text_classes, settings, mode, kind, text, w, name_rules, gtext=None):
+    """one text under one input kind: REF (split settings) vs the wrapped model, the event log of the model and of the
+    generated parser, model vs generated parser.  -> True when REF refused a keyword somewhere in this parse"""
+    ignorecase = mode != 'off'
+    w = dict(w, kind=kind)
+    kc = kind_class(kind)
+    sfx = '' if kind == 'str' else '/input:' + kc
+    desc = f'{gtext or L.grammar_text(g)!r} {text!r} {settings} text given as {kind}'
+    budget = step_budget(g, text)
+
+    def mk():
+        return make_input(kind, text, settings, text_classes)
+
+    a, r = ref_run(g, text, 'start', settings=ref_settings(kind, g, settings, ignorecase), max_steps=30000)
+    acc.evaluations += 1
+    acc.count('kind_probes')
+    acc.count('input_kind:' + kc)
+    if ignorecase and kc in ('textlines', 'buffer'):
+        acc.count('bare_input_under_ignorecase')
+    if a[0] == 'budget':
+        acc.count('ref_budget')
+        return False
+
+    # (3) REF against the wrapped model (end position and value)
+    def wrapped_run():
+        res = wmodel.parse(mk(), start=WRAP_START, heart=StepHeart(budget), **settings)
+        return ('ok', len(text) - len(res['r']), canon(res['v']))
+    b = outcome_of(wrapped_run)
+    if b[0] == 'fail':
+        b = ('fail',)
+    tag = D.relation(a, b, bool(r.nonw))
+    if tag is not None:
+        acc.violation(f'ref/{tag}/{mode}{sfx}', f'keyword handling differs from REF ({tag}): {desc} REF={a} TATSU={b}', w)
+        return r.kw_rejected > 0
+    if r.kw_rejected:
+        acc.count('kind_keyword_rejections')
+        acc.nontriv(L.grammar_text(g), repr(settings), text, kind)
+        if ignorecase and kc in ('textlines', 'buffer'):
+            acc.count('bare_input_case_insensitive_rejection')
+        if a[0] == 'ok':
+            acc.count('kind_alternative_after_rejection')
+
+    # (1) event log, model and generated parser; (4) model vs generated parser under the same input kind
+    outs = {}
+    for side, parse in (('model', pmodel.parse), ('gen', (lambda t, **kw: gen().parse(t, **kw)) if gen is not None else None)):
+        if parse is None:
+            continue
+        rec = Recorder()
+        outs[side] = outcome_of(lambda: ('ok', canon(parse(mk(), heart=StepHeart(budget), semantics=rec, **settings))))  # noqa: B023
+        for name, ast, params, kwp, pos in rec.events:
+            if name in name_rules:
+                acc.count('kind_name_events')
+                if is_kw(ast, g.keywords, ignorecase):
+                    who = '' if side == 'model' else '-gen'
+                    acc.violation(f'keyword-accepted{who}/{mode}{sfx}',
+                                  f'@name rule {name!r} of the {"model" if side == "model" else "generated parser"} completed with the keyword {ast!r}: {desc}', w)
+    if 'gen' in outs:
+        acc.count('kind_gen_compared')
+        out, gout = outs['model'], outs['gen']
+        if gout[0] != out[0] or (gout[0] == 'ok' and gout != out):
+            acc.violation(f'gen/{mode}{sfx}', f'generated parser != model with keywords: {desc} MODEL={out} GEN={gout}', w)
+    return r.kw_rejected > 0
+
+
+def check(acc, g, settings, mode, feats, texts, origin, alt_off=None, alt_kinds=None):
+    """alt_off: rotation offset of the input kinds given to every other text; alt_kinds: {text index: kind} (replay)"""
     ignorecase = mode != 'off'
     eff = dict(settings)
     case = D.Case(g, 'start', settings=eff, parse_settings=settings)
@@ -160,12 +355,16 @@ def check(acc, g, settings, mode, feats, texts, origin):
         return
     model = L.to_model(g, name='T')
     undecorated = L.to_model(strip_names(g), name='T')
+    text_classes = {}
     try:
-        gen = gen_parser(model)[0]
+        gen, text_classes = gen_module(model)
     except Exception as e:  # noqa: BLE001
         acc.violation('gen-build:' + type(e).__name__, f'code generation failed: {e}',
                       {'grammar': L.to_json(g), 'grammar_text': L.grammar_text(g), 'text': '', 'settings': settings})
         gen = None
+    if gen is not None and not text_classes:
+        acc.note('the generated module defines no text class: the gen:/gen_set: input kinds are unobserved')
+    kinds = kinds_of(text_classes)
     name_rules = {r.name for r in g.rules if 'name' in r.decorators}
     reused = [None]
     if 'uppercase_name_rule' in feats:
@@ -176,9 +375,17 @@ def check(acc, g, settings, mode, feats, texts, origin):
         acc.count('ignorecase_directive', len(texts))
     elif mode == 'setting':
         acc.count('ignorecase_setting', len(texts))
-    for text in texts:
+    for j, text in enumerate(texts):
         w = {'grammar': L.to_json(g), 'grammar_text': L.grammar_text(g), 'text': text, 'settings': settings, 'mode': mode,
              'origin': origin}
+        # the same text handed over as a ready-made input object (every other text, kinds in rotation)
+        alt = None
+        if alt_kinds is not None:
+            alt = alt_kinds.get(j)
+        elif alt_off is not None and (j + alt_off) % 2 == 0:
+            alt = kinds[(alt_off + j // 2) % len(kinds)]
+        if alt is not None and (alt in kinds):
+            kind_probe(acc, g, case.model, model, gen, text_classes, settings, mode, alt, text, w, name_rules)
         # (3) REF
         tag, a, b, r = D.compare(case, text)
         acc.evaluations += 1
@@ -215,8 +422,15 @@ def check(acc, g, settings, mode, feats, texts, origin):
                               f'{L.grammar_text(g)!r} {text!r} {settings} WITH={out} WITHOUT={out0}', w)
         # (4) generated parser
         if gen is not None:
-            gout = plain(lambda t, **kw: gen().parse(t, **kw), g, text, settings)
+            recg = Recorder()
+            gout = plain(lambda t, **kw: gen().parse(t, **kw), g, text, settings, recg)
             acc.count('gen_compared')
+            for name, ast, params, kwp, pos in recg.events:
+                if name in name_rules:
+                    acc.count('gen_name_events')
+                    if is_kw(ast, g.keywords, ignorecase):
+                        acc.violation(f'keyword-accepted-gen/{mode}', f'@name rule {name!r} of the generated parser completed with the keyword {ast!r}: '
+                                                                     f'{L.grammar_text(g)!r} {text!r} {settings}', w)
             # ... and one long-lived parser object: a parse under the opposite ignorecase setting in between must not matter
             if reused[0] is None:
                 reused[0] = gen()
@@ -232,25 +446,179 @@ def check(acc, g, settings, mode, feats, texts, origin):
                 acc.violation(f'gen/{mode}', f'generated parser != model with keywords: {L.grammar_text(g)!r} {text!r} {settings} MODEL={out} GEN={gout}', w)
 
 
+# ---------------------------------------------------------------- keyword sweep
+RESERVED = ('and array begin case const div do downto else end file for function goto if in label mod nil not of or packed '
+            'procedure program record repeat set then to type until var while with select from where group by having order '
+            'insert into values update delete create table index view join inner outer left right on as distinct union all '
+            'exists between like is null true false def class return yield lambda import pass raise try except finally '
+            'global nonlocal assert async await elif break continue del None True False').split()
+UNICODE_WORDS = ['straße', 'ınd', 'Über', 'ñandú', 'čaj', 'İs', 'ß', 'été', 'λx', 'Ωmega', 'naïve', 'ǆem', 'ﬁn', 'ŉa']
+QUOTED_WORDS = ['end-if', "don't", '1st', '42', 'not-in', '9', "o'clock", '3d', 'go-to', 'x-1', '-', "'"]
+SWEEP_PATS = [r"[\w\-']+", r"[^\s,]+"]
+SWEEP_SIZES = [1, 2, 3, 5, 8, 9, 10, 11, 12, 13, 14, 16, 18, 22, 27, 33, 40, 50, 60]
+LETTERS = 'abcdefghijklmnopqrstuvwxyzABCDEFGHXYZ'
+N_SWEEP = {'quick': 96, 'thorough': 2560}
+
+
+def gen_words(rng, n):
+    """n distinct keyword spellings: reserved words of real languages (as written, upper-cased, capitalized), synthetic
+    words of 1..14 characters in mixed case, non-ASCII words, quoted (non-identifier) spellings"""
+    out = []
+    while len(out) < n:
+        x = rng.random()
+        if x < 0.55:
+            wd = rng.choice(RESERVED)
+            wd = rng.choice([wd, wd, wd.upper(), wd.capitalize()])
+        elif x < 0.78:
+            wd = rng.choice(LETTERS) + ''.join(rng.choice(LETTERS + '_0123456789') for _ in range(rng.choice([0, 0, 1, 2, 3, 5, 8, 13])))
+        elif x < 0.89:
+            wd = rng.choice(UNICODE_WORDS)
+        else:
+            wd = rng.choice(QUOTED_WORDS)
+        if wd not in out:
+            out.append(wd)
+    return tuple(out)
+
+
+def case_variant(rng, wd):
+    vs = [v for v in (wd.upper(), wd.lower(), wd.capitalize(), wd.swapcase()) if v != wd]
+    return rng.choice(vs) if vs else None
+
+
+def gen_sweep(rng):
+    """-> g, settings, mode, feats, layout, [(text, what)]: every declared keyword is tried as a name"""
+    kws = gen_words(rng, rng.choice(SWEEP_SIZES))
+    g, settings, mode, feats = gen_case(rng, kws=kws, idpats=IDENT_PATS + SWEEP_PATS)
+    layout = rng.choice(['object', 'one', 'several', 'chunks'])
+    if layout == 'chunks':
+        sizes = []
+        while sum(sizes) < len(kws):
+            sizes.append(rng.choice([1, 2, 3, 5, 8]))
+        layout = 'chunks:' + ','.join(map(str, sizes))
+    words = []
+    for wd in kws:
+        words.append((wd, 'keyword'))
+        v = case_variant(rng, wd)
+        if v is not None and (mode != 'off' or rng.random() < 0.34):
+            words.append((v, 'variant'))
+        if len(wd) > 1 and rng.random() < 0.25:
+            words.append((wd[:-1], 'prefix'))
+        if rng.random() < 0.25:
+            words.append((wd + rng.choice('xX_1'), 'suffix'))
+    texts = [((rng.choice(['a ', 'b7 ', 'zz, ']) if rng.random() < 0.2 else '') + wd, what) for wd, what in words]
+    return g, settings, mode, feats, layout, texts
+
+
+def keyword_lines(kws, layout):
+    def lit(k):
+        return k if k.isidentifier() else repr(k)
+    if layout == 'one':
+        groups = [list(kws)]
+    elif layout.startswith('chunks:'):
+        groups, rest = [], list(kws)
+        for n in map(int, layout.split(':')[1].split(',')):
+            if rest:
+                groups.append(rest[:n])
+                rest = rest[n:]
+        if rest:
+            groups.append(rest)
+    else:
+        groups = [[k] for k in kws]
+    return ['@@keyword :: ' + ' '.join(lit(k) for k in grp) for grp in groups]
+
+
+def sweep_text(g, layout):
+    """grammar text with the keywords declared as `layout` says (after the other directives)"""
+    lines = L.grammar_text(L.Grammar(g.rules, dict(g.directives), ()), name='T').split('\n')
+    k = 0
+    while k < len(lines) and lines[k].startswith('@@'):
+        k += 1
+    return '\n'.join(lines[:k] + keyword_lines(g.keywords, layout) + lines[k:])
+
+
+def check_sweep(acc, g, settings, mode, feats, layout, texts, origin, kind_off=0, only_kind=None):
+    """texts: [(text, what)].  One model (the wrapped grammar: REF comparison through VTSTART, event log through the
+    grammar's own start rule), one generated parser; every text under one input kind ('str' included) in rotation."""
+    wg = wrapped(g, 'start')
+    w0 = {'family': 'sweep', 'grammar': L.to_json(g), 'grammar_text': sweep_text(g, layout), 'layout': layout,
+          'settings': settings, 'mode': mode, 'origin': origin, 'text': ''}
+    try:
+        if layout == 'object':
+            model = L.to_model(wg, name='T')
+        else:
+            import tatsu
+            model = tatsu.compile(sweep_text(wg, layout), name='T')
+    except Exception as e:  # noqa: BLE001
+        acc.violation('exc:build:' + type(e).__name__, f'building failed: {type(e).__name__}: {e} {sweep_text(g, layout)!r}', w0)
+        return
+    text_classes = {}
+    try:
+        gen, text_classes = gen_module(model)
+    except Exception as e:  # noqa: BLE001
+        acc.violation('gen-build:' + type(e).__name__, f'code generation failed: {e} {sweep_text(g, layout)!r}', w0)
+        gen = None
+    kinds = ['str'] + kinds_of(text_classes)
+    name_rules = {r.name for r in g.rules if 'name' in r.decorators}
+    n = len(g.keywords)
+    acc.count('sweep_cases')
+    acc.count('sweep_decl:' + layout.split(':')[0])
+    acc.peak('sweep_max_keywords', n)
+    if n >= 10:
+        acc.count('sweep_cases_10_or_more_keywords')
+    if any(not k.isidentifier() for k in g.keywords):
+        acc.count('sweep_cases_with_quoted_keyword')
+    if mode != 'off':
+        acc.count('sweep_cases_ignorecase')
+    for j, (text, what) in enumerate(texts):
+        kind = only_kind or kinds[(kind_off + j) % len(kinds)]
+        if kind not in kinds:
+            continue
+        acc.count('sweep_words')
+        acc.count('sweep_word:' + what)
+        if n >= 10:
+            acc.count('sweep_words_of_long_lists')
+        rejected = kind_probe(acc, g, model, model, gen, text_classes, settings, mode, kind, text,
+                              dict(w0, text=text, what=what, j=j), name_rules,
+                              gtext=f'[{n} keywords, declared: {layout}] ' + w0['grammar_text'])
+        if rejected:
+            acc.count('sweep_rejections')
+            if what == 'variant':
+                acc.count('sweep_case_variant_rejected')
+
+
 def run_shard(desc, acc):
     for i in range(desc['n']):
         rng = random.Random(h64('C11', desc['seed'], desc['shard'], i))
         g, settings, mode, feats = gen_case(rng)
         texts = gen_inputs(rng, g, 8 if desc['tier'] == 'quick' else 10)
-        check(acc, g, settings, mode, feats, texts, {'shard': desc['shard'], 'i': i})
+        check(acc, g, settings, mode, feats, texts, {'shard': desc['shard'], 'i': i}, alt_off=rng.randrange(64))
         if i == 0:
             acc.sample({'grammar': L.grammar_text(g), 'settings': settings, 'inputs': texts})
+    for i in range(desc.get('nsweep', 0)):
+        rng = random.Random(h64('C11', 'sweep', desc['seed'], desc['shard'], i))
+        g, settings, mode, feats, layout, texts = gen_sweep(rng)
+        check_sweep(acc, g, settings, mode, feats, layout, texts, {'shard': desc['shard'], 'sweep': i}, kind_off=rng.randrange(64))
+        if i == 0:
+            acc.sample({'family': 'sweep', 'grammar': sweep_text(g, layout), 'settings': settings, 'inputs': [t for t, _ in texts][:12]})
 
 
 def replay(w, acc):
     g = L.from_json(w['grammar'])
-    check(acc, g, w.get('settings', {}), w.get('mode', 'off'), set(), [w['text']], {'mode': 'replay'})
+    if w.get('family') == 'sweep':
+        check_sweep(acc, g, w.get('settings', {}), w.get('mode', 'off'), set(), w.get('layout', 'object'),
+                    [(w['text'], w.get('what', 'keyword'))], {'mode': 'replay'}, only_kind=w.get('kind', 'str'))
+        return
+    check(acc, g, w.get('settings', {}), w.get('mode', 'off'), set(), [w['text']], {'mode': 'replay'},
+          alt_kinds={0: w['kind']} if w.get('kind') else None)
 
 
 MANIFEST = {
-    'technique': 'runtime monitoring: semantics-object event log ("@name never completes with a keyword") + metamorphic decorated/undecorated pair + reference-model oracle + model/generated differential',
+    'technique': 'runtime monitoring: semantics-object event log ("@name never completes with a keyword", model and generated parser) + metamorphic decorated/undecorated pair + '
+                 'reference-model oracle + model/generated differential, over input kinds (str / ready-made input objects) and keyword lists of 1..60 words',
     'level_text': 'generated keyword grammars x word inputs built from keywords, their prefixes/suffixes and case variants, under ignorecase off / directive / '
-                  'parse-time setting; every @name completion is observed through the semantics object, non-keyword inputs must parse exactly as the undecorated grammar',
+                  'parse-time setting; every @name completion is observed through the semantics object, non-keyword inputs must parse exactly as the undecorated grammar; '
+                  'the text handed over as str, TextLines, legacy Buffer or a text class of the generated module; keyword lists of 1..60 words (one @@keyword line, '
+                  'several, chunks, object route) with every declared keyword tried as a name on the model and on the generated parser',
     'level_note': 'trusted: vt/ref.py keyword predicate, Python str.upper() for case folding (what the statement calls case-insensitive comparison); '
                   'held = no violation on the listed executions',
 }
